@@ -4,6 +4,8 @@
 import Frost.Props.C18
 import Frost.Model.Batch
 import Frost.Proofs.Signing
+import Frost.Proofs.NoPanic
+import Frost.Proofs.NafValue
 import Mathlib.Algebra.NoZeroSMulDivisors.Basic
 
 set_option linter.unusedSectionVars false
@@ -184,5 +186,57 @@ theorem batch_rejects_invalid (B : Base F E) (pre post : List (BatchItem F E))
 /-! Non-vacuity (ℚ, `G = 1`, cofactor 1): an invalid item (`R + c·VK − z·G = 1 + 1·2 − 5 ≠ 0`). -/
 example : (1 : ℚ) • defect exBase ⟨(2 : ℚ), ⟨1, 5⟩, 1⟩ ≠ 0 := by
   simp [defect, exBase]; norm_num
+
+/-! ## Closed form: no hypothesis about the multiscalar code or about panics
+
+`batch_eq` and `batch_accepts_valid` take `MsmSound` and "the call does not panic" as
+hypotheses.  Both are theorems (`msmSound_of_leSound`, `batchVerify_np`), so the statement a
+caller relies on needs only the encoding law of `little_endian_serialize`. -/
+
+/-- the random source delivering all blinders is all the batch loop needs -/
+theorem batchLoop_isSome_of_gen (S : Suite F E) (items : List (BatchItem F E)) (t t' : Tape) (bs : List F)
+    (hgen : generateCoefficients S items.length t = some (bs, t')) :
+    (batchLoop S items ⟨0, [], [], [], []⟩ t).isSome := by
+  rw [batchLoop_eq, hgen]; rfl
+
+/-- **What `Verifier::verify` returns, unconditionally**: for every non-empty batch and every
+    tape that delivers the blinders `bs`, it returns `Ok` iff `h • Σ bᵢ • defectᵢ = 0`, and
+    `InvalidSignature` otherwise — it never panics and never returns another error. -/
+theorem batch_decides (S : Suite F E) (hle : LeSound S.leBytes) (items : List (BatchItem F E))
+    (hne : items ≠ []) (t t' : Tape) (bs : List F)
+    (hgen : generateCoefficients S items.length t = some (bs, t')) :
+    batchVerify S items t =
+      if S.cofactor • combo S.toBase items bs = 0 then .ok ((), t') else .error .InvalidSignature :=
+  batch_eq S (msmSound_of_leSound S.leBytes hle) items hne t t' bs hgen
+    (batchVerify_np S items t (batchLoop_isSome_of_gen S items t t' bs hgen))
+
+/-- **Completeness, unconditionally**: a batch whose every item verifies is accepted on every
+    tape. -/
+theorem batch_accepts_valid' (S : Suite F E) (hle : LeSound S.leBytes)
+    (items : List (BatchItem F E)) (hne : items ≠ []) (t t' : Tape) (bs : List F)
+    (hgen : generateCoefficients S items.length t = some (bs, t'))
+    (hvalid : ∀ it ∈ items, S.cofactor • defect S.toBase it = 0) :
+    batchVerify S items t = .ok ((), t') :=
+  batch_accepts_valid S (msmSound_of_leSound S.leBytes hle) items hne t t' bs hgen
+    (batchVerify_np S items t (batchLoop_isSome_of_gen S items t t' bs hgen)) hvalid
+
+/-- **Soundness on the model's own return value**: if one item is invalid and the verifier
+    accepts on two tapes that differ only in that item's blinder, the two blinders are equal —
+    stated about `batchVerify` itself, not about `combo`. -/
+theorem batch_accepts_at_most_one_blinder (S : Suite F E) (hle : LeSound S.leBytes)
+    (pre post : List (BatchItem F E)) (it : BatchItem F E) (bp bq : List F) (b b' : F)
+    (hlen : bp.length = pre.length) (t₁ t₁' t₂ t₂' : Tape)
+    (hgen₁ : generateCoefficients S (pre ++ it :: post).length t₁ = some (bp ++ b :: bq, t₁'))
+    (hgen₂ : generateCoefficients S (pre ++ it :: post).length t₂ = some (bp ++ b' :: bq, t₂'))
+    (hinvalid : S.cofactor • defect S.toBase it ≠ 0)
+    (hacc₁ : batchVerify S (pre ++ it :: post) t₁ = .ok ((), t₁'))
+    (hacc₂ : batchVerify S (pre ++ it :: post) t₂ = .ok ((), t₂')) :
+    b = b' := by
+  have hne : pre ++ it :: post ≠ [] := by simp
+  rw [batch_decides S hle _ hne t₁ t₁' _ hgen₁] at hacc₁
+  rw [batch_decides S hle _ hne t₂ t₂' _ hgen₂] at hacc₂
+  refine batch_rejects_invalid S.toBase pre post it bp bq b b' hlen hinvalid ?_ ?_
+  · by_contra h; rw [if_neg h] at hacc₁; cases hacc₁
+  · by_contra h; rw [if_neg h] at hacc₂; cases hacc₂
 
 end Frost.C19
